@@ -87,6 +87,9 @@ func idle(c *Case, e *env, where string, api string, jobsMayLinger bool) *evid.F
 	if s.JobQueue != 0 && !jobsMayLinger {
 		bad = append(bad, "jobQueue")
 	}
+	if s.NativeDepth != 0 {
+		bad = append(bad, "nativeDepth")
+	}
 	if len(bad) == 0 {
 		return nil
 	}
